@@ -97,4 +97,3 @@ func init() {
 			"(a) every interleaving of the callback of one login with a replay of it and/or the same state and code presented under another session's cookie, under the controlled scheduler, memory and Redis store, followed by a sequential replay; (b) "+histRule)
 	}
 }
-
